@@ -105,15 +105,19 @@ CHECKS = {
         note="The exit table is syntactic (text walker over parser.cpp); the setter shape is modelled and tied by the "
              "step-by-step correspondence."),
     "C10": dict(
-        technique="Lean 4 proof: IPv4 round trip for all 2^32 addresses by arithmetic, host-parser well-formedness; "
-                  "Spec host parsers vs implementation on host-centred cases",
+        technique="Lean 4 proof: IPv4 round trip for all 2^32 addresses and IPv6 round trip for all 2^128 addresses "
+                  "(induction over the serializer/parser loops), host-parser well-formedness, host code-point tables "
+                  "regenerated from the source; Spec host parsers vs implementation on host-centred cases",
         text="Lean 4: Spec/Host.lean transcribes the IPv4/IPv6/host parsers and serializers over Nat. Theorems: "
-             "ipv4Parse(ipv4Serialize a)=a for every a<2^32, serialized addresses end in a number, parsed hosts are "
+             "ipv4Parse(ipv4Serialize a)=a for every a<2^32, ipv6Parse(ipv6Serialize a)=a for every eight 16-bit pieces "
+             "(any position/length of the compressed zero run; also through the bracketed host parser), the forbidden "
+             "host/domain code-point tables equal the Standard's sets, serialized addresses end in a number, parsed hosts are "
              "well-formed/non-empty; decided boundary tables for number forms, IPv6 compression and DNS length. The "
              "implementation is compared with the Spec on href, host, port, host kind and has_valid_domain for hosts "
              "parsed, inherited from a base and replaced by setters, and every produced IP href is re-parsed.",
         design_ref="DESIGN.md §5 C10",
-        note="parse_ipv4/parse_ipv6 C++ kernels are compared, not modelled; IPv6 round trip is not yet a theorem."),
+        note="parse_ipv4/parse_ipv6 C++ kernels and the C++ serialisers are compared with the Spec, not modelled; the "
+             "round-trip theorems are about the Spec (validated transcription of the Standard)."),
     "C19": dict(
         technique="Lean 4 proof by case analysis over the Spec parser and induction over setter histories; RecInv "
                   "evaluated on the implementation after every operation",
@@ -145,8 +149,9 @@ CHECKS = {
              "strict weak order (so stable_sort is defined), sort is a stable sorted permutation. The model is run against "
              "ada::url_search_params on generated operation sequences incl. malformed UTF-8 names.",
         design_ref="DESIGN.md §5 C12",
-        note="std::stable_sort is modelled by List.mergeSort (both stable for a strict weak order); the decoder's "
-             "equality with real UTF-16 on valid UTF-8 is shown on examples, not as a general theorem."),
+        note="std::stable_sort is modelled by List.mergeSort (both stable for a strict weak order); the decoder is proved to "
+             "be UTF-8 -> UTF-16 on every sequence of Unicode scalar values (Lemmas/Utf16.lean); malformed UTF-8 keys take "
+             "the lenient branches of the model, which are tied by correspondence only."),
 
     "C18": dict(
         technique="Lean 4 proof: 256-case decide on SIMD constants re-extracted from the source, block-loop = scalar "
@@ -201,7 +206,8 @@ CHECKS = {
              "lower-case/digit/-/. (unchanged by lower-casing and decoding, not forbidden); every CHAR_SIMPLE_PATHNAME byte is "
              "outside the path encode set and none of . % \\ ? # tab LF CR, hence the path encoder and tab/newline removal are "
              "the identity on simple path names; the port canonicaliser's lexicographic rule is numeric comparison. On the "
-             "implementation: for literal values of every component (alone, combined, with baseURL) construction fails iff "
+             "implementation: for literal values of every component (alone, combined, with baseURL, and as constructor strings "
+             "assembled from literal parts) construction fails iff "
              "the Standard's canonicalisation (run by the Lean driver) fails, and each pattern string is the escaped canonical "
              "form, including default-port elision, the special-scheme pathname choice and base-URL inheritance; every "
              "encodable WPT URLPattern vector is replayed.",
